@@ -360,6 +360,31 @@ impl<'a> Norm<'a> {
                 }
             }
         }
+        // R.map_err(|_| X)?   ==>  match R { Ok(a) => a, Err(_) => return Err(X) }   (definition of map_err followed by `?`)
+        if let Expr::Try(t) = e {
+            if let Expr::MethodCall(me) = &*t.expr {
+                if me.method == "map_err" && me.args.len() == 1 {
+                    let is_try_into = matches!(&*me.receiver, Expr::MethodCall(ti) if ti.method == "try_into");
+                    if !is_try_into {
+                        if let Expr::Closure(cl) = &me.args[0] {
+                            if cl.inputs.len() == 1 && matches!(cl.inputs[0], syn::Pat::Wild(_) | syn::Pat::Ident(_)) {
+                                let uses_param = match &cl.inputs[0] {
+                                    syn::Pat::Ident(pi) => cl.body.to_token_stream().to_string().split(|c: char| !c.is_alphanumeric() && c != '_').any(|w| w == pi.ident.to_string()),
+                                    _ => false,
+                                };
+                                if !uses_param {
+                                    let r = &me.receiver;
+                                    let body = &cl.body;
+                                    *e = parse_quote!(match #r { Ok(__a) => __a, Err(_) => return Err(#body) });
+                                    self.stats.bump("N6.map_err_try");
+                                    return;
+                                }
+                            }
+                        }
+                    }
+                }
+            }
+        }
         // R.try_into().map_err(|_| X)?   ==>  match v_try_into(&R) { Ok(a) => a, Err(_) => return Err(X) }
         if let Expr::Try(t) = e {
             if let Expr::MethodCall(me) = &*t.expr {
@@ -553,6 +578,14 @@ impl<'a> Norm<'a> {
         // Duration::from_secs(X) ==> v_duration_from_secs(X)
         if let Expr::Call(c) = e {
             let f = c.func.to_token_stream().to_string().replace(' ', "");
+            // N11b: std::collections::HashSet::<u16>::{new,from}  ==>  VTagSet::{new,from}
+            if f.contains("HashSet::<u16>::") && (f.ends_with("::new") || f.ends_with("::from")) {
+                let last = if f.ends_with("::new") { ident("new") } else { ident("from") };
+                let args = &c.args;
+                *e = parse_quote!(VTagSet::#last(#args));
+                self.stats.bump("N11b.tagset");
+                return;
+            }
             if (f == "HashMap::new" || f.ends_with("::HashMap::new")) && c.args.is_empty() {
                 *e = parse_quote!(VMap::new());
                 self.stats.bump("N11.hashmap_new");
